@@ -100,9 +100,13 @@ class ClientHarness:
 
     HOST, PORT = "pinned.ex", 1965
 
-    def __init__(self, scr, tofu, ep="get", seed=0, verify_ssl=False, shared=None):
+    def __init__(self, scr, tofu, ep="get", seed=0, verify_ssl=False, shared=None, hold_verify=False):
         """shared = another ClientHarness: this call is made on the SAME GeminiClient object and event loop (overlapping
-        calls on one client, as the reverse proxy makes them)."""
+        calls on one client, as the reverse proxy makes them).
+        hold_verify: create_connection returns only at the `Verify` action - what the server says in the meantime (a server
+        that talks as soon as the handshake is over, in the same TCP segment) reaches data_received before the request has
+        left, as it does with a real TLS transport."""
+        self.hold = None
         self.scr = scr
         self.tofu = tofu
         self.ep = ep
@@ -142,6 +146,9 @@ class ClientHarness:
                                        auto_lost=False)
             harness.connected_to = (host, port)
             proto.connection_made(harness.tr)
+            if hold_verify and tofu != "off":
+                harness.hold = harness.loop.create_future()
+                await harness.hold
             return harness.tr, proto
 
         self.loop.create_connection = create_connection
@@ -163,7 +170,10 @@ class ClientHarness:
 
     def do(self, act, arg=None):
         if act == "Verify":
-            pass                                   # already happened inside the first run_idle (no await in between)
+            # without hold_verify it already happened inside the first run_idle (no await in between)
+            if self.hold is not None and not self.hold.done():
+                self.hold.set_result(None)
+                self.loop.run_idle()
         elif act == "Rx":
             chunk = self.scr["data"][self.rx:arg]
             self.rx = arg
